@@ -582,12 +582,19 @@ func runJob(w *World, job Job) (res *JobResult) {
 		}
 		sort.Strings(res.Stubs)
 	}()
+	jobStart := time.Now()
 	for len(ex.work) > 0 {
 		if res.Paths >= maxPaths {
 			res.Truncated = true
 			break
 		}
 		if len(res.Violations) >= ex.maxViol {
+			res.Truncated = true
+			break
+		}
+		// wall-clock budget per job (20 min): exceeded only when a change to the code under test
+		// multiplies the paths; the job is then reported as truncated (inconclusive), not explored for hours
+		if time.Since(jobStart) > 20*time.Minute {
 			res.Truncated = true
 			break
 		}
